@@ -45,7 +45,7 @@ type SecretRec struct {
 // Snapshot of the mutable counters.
 type SecretState struct {
 	Depth, Reads, CloseCalls, CloseReturned, TouchAfterClose, TouchErrNil int
-	ClosedSeq                                                            int64
+	ClosedSeq                                                             int64
 }
 
 func (r *SecretRec) State() SecretState {
@@ -70,9 +70,9 @@ type Ledger struct {
 	recs   []*SecretRec
 	calls  int
 	log    []LedCall
-	FailAt map[int]bool  // creation call index (0-based) -> fail without allocating
-	label  atomic.Value  // string
-	NoHash bool          // do not read CreateRandom secrets back (keeps mprotect traffic unchanged)
+	FailAt map[int]bool // creation call index (0-based) -> fail without allocating
+	label  atomic.Value // string
+	NoHash bool         // do not read CreateRandom secrets back (keeps mprotect traffic unchanged)
 }
 
 // LedCall is one creation call on the monitored factory.
